@@ -436,6 +436,68 @@ theorem discard_ctx_code_fails_on_pinned :
 /-- a body that simply runs out while an over-limit message is discarded is still "too large" -/
 example : (clientReceiveError (envelopeDiscardError .eof)).codeOf = codeInvalidArgument := by decide
 
+/-! ### fixes F25–F27: response validation and `CloseResponse` under a context that has ended -/
+
+/-- **validation_after_context_end** (F25): response validation failed (for a unary Connect call
+    that includes reading the error document from the body) and the call's context has ended by
+    then: the call's error is the context's, whatever validation made of what it could read. -/
+theorem validation_after_context_end (k : CtxKind) (v : GoError) :
+    (validationError (some k) v).codeOf = ctxCode k := by
+  cases k <;> simp [validationError, wrapIfContextError, GoError.asError, GoError.isCtx, GoError.codeOf, ctxCode]
+
+theorem validation_live_unchanged (v : GoError) : validationError none v = v := rfl
+
+/-- **close_done_code** (F26, F27): `CloseResponse` drains the response; the drain fails after the
+    call's context has ended — with the watcher's stored error (the context is watched until the
+    drain is over) or without it, with any uncoded error that is not the clean end of the body:
+    `CloseResponse` reports canceled / deadline_exceeded. -/
+theorem coded_passthrough (c : Nat) (e : GoError) (d : Option CtxKind) :
+    wrapIfRSTError (.coded c e) = .coded c e ∧ wrapIfUncoded (.coded c e) = .coded c e ∧
+      wrapIfContextDone d (.coded c e) = .coded c e := by
+  refine ⟨by simp [wrapIfRSTError, GoError.asError], by simp [wrapIfUncoded, wrapIfContextError, GoError.asError],
+    by simp [wrapIfContextDone, GoError.asError]⟩
+
+theorem close_done_code (k : CtxKind) (bodyErr : GoError) (hu : bodyErr.asError = none)
+    (hn : bodyErr.isCtx .canceled = false ∧ bodyErr.isCtx .deadline = false)
+    (stored : Option GoError) (hs : stored = none ∨ stored = setError none (.ctx k)) :
+    (clientCloseResponseErrorDone stored (some k) bodyErr).codeOf = ctxCode k := by
+  have hset : setError none (.ctx k) = some (.coded (ctxCode k) (.ctx k)) := by
+    cases k <;> simp [setError, wrapIfContextError, GoError.asError, GoError.isCtx, ctxCode]
+  rcases hs with hs | hs
+  · subst hs
+    have hw : wrapIfContextError bodyErr = bodyErr := only_context_errors_are_classified bodyErr (Or.inl hn)
+    have hd : wrapIfContextDone (some k) bodyErr = .coded (ctxCode k) bodyErr := by simp [wrapIfContextDone, hu]
+    show (wrapIfUncoded (wrapIfRSTError (wrapIfContextDone (some k) (wrapIfContextError bodyErr)))).codeOf = ctxCode k
+    rw [hw, hd, (coded_passthrough _ _ none).1, (coded_passthrough _ _ none).2.1]
+    simp [GoError.codeOf, GoError.asError]
+  · rw [hs, hset]
+    show (wrapIfUncoded (GoError.coded (ctxCode k) (.ctx k))).codeOf = ctxCode k
+    rw [(coded_passthrough _ _ none).2.1]
+    simp [GoError.codeOf, GoError.asError]
+
+/-- … and a drain that fails with the context error itself is classified as before -/
+theorem close_ctx_error_code (k : CtxKind) (bodyErr : GoError) (hk : bodyErr.isCtx k = true)
+    (hu : bodyErr.asError = none) (done : Option CtxKind) :
+    (clientCloseResponseErrorDone none done bodyErr).codeOf = ctxCode k := by
+  have hw : wrapIfContextError bodyErr = .coded (ctxCode k) bodyErr := by
+    unfold wrapIfContextError
+    rw [hu]
+    cases k with
+    | canceled => simp [hk, ctxCode]
+    | deadline =>
+      have hc : bodyErr.isCtx .canceled = false := by
+        cases hcc : bodyErr.isCtx .canceled with
+        | false => rfl
+        | true => have := isCtx_unique bodyErr hcc; rw [hk] at this; cases this
+      simp [hk, hc, ctxCode]
+  show (wrapIfUncoded (wrapIfRSTError (wrapIfContextDone done (wrapIfContextError bodyErr)))).codeOf = ctxCode k
+  rw [hw, (coded_passthrough _ _ done).2.2, (coded_passthrough _ _ done).1, (coded_passthrough _ _ done).2.1]
+  simp [GoError.codeOf, GoError.asError]
+
+/-- **History, F26/F27** — with the watcher stopped before the drain and no look at the context,
+    the cause a cause-carrying context ended with came out of `CloseResponse` as unknown: -/
+theorem close_done_fails_on_pinned : (clientCloseResponseError none (.wrap .opaque)).codeOf = codeUnknown := by decide
+
 /-! ### fix F17: the second Receive of a unary call -/
 
 /-- **unary_second_receive_keeps_error** (F17): `receiveUnaryResponse` has its message and asks
